@@ -67,7 +67,7 @@ QUICK = dict(cases=220, workers=2, timecap=40)
 THOROUGH = dict(cases=22000, workers=16, timecap=600)
 TOL_FACTOR = 10.0   # safety factor on the rigorous smooth-profile discretisation bound (attained by the documented scheme)
 KINK_FACTOR = 4.0   # safety factor on the first-order terms of cells that contain a kink of a piecewise profile
-REQUIRED = {"flux_source": 70, "flux_nostop": 40, "flux_atten": 500, "flux_atten_gapped": 100, "axis_kinks": 50, "envelope": 1500, "monotone": 5000, "zero_z": 2500,
+REQUIRED = {"clamp_radius": 300, "flux_source": 70, "flux_nostop": 40, "flux_atten": 330, "flux_atten_gapped": 100, "axis_kinks": 50, "envelope": 1500, "monotone": 5000, "zero_z": 2500,
             "zero_clamp": 5000, "dir_unit": 2000, "dir_stream": 3000, "rate_evaluations": 10000}
 
 # own constants (CODATA 2018; cherab mixes 2018 and 2022 => never compare physics below 1e-7)
@@ -562,7 +562,7 @@ def gen_case(rng, tier, overrides=None):
         step = max(step, length / max_nodes)
         stepc = "step>length" if step > length else "step<=length"
     clamp = bool(rng.random() < 0.5)
-    clamp_sigma = float(rng.uniform(1, 6)) if rng.random() > 0.2 else float([1, 2, 3, 5, 6][int(rng.integers(5))])
+    clamp_sigma = float(rng.uniform(0.5, 8)) if rng.random() > 0.2 else float([0.5, 1, 2.5, 3, 6][int(rng.integers(5))])
     beam = dict(energy=energy, power=power, element=bel, sigma=sigma, divergence_x=divx, divergence_y=divy, length=length,
                 temperature=float(rng.uniform(0, 100)))
     att = dict(step=step, clamp_to_zero=clamp, clamp_sigma=clamp_sigma)
@@ -710,7 +710,60 @@ def gen_case(rng, tier, overrides=None):
     dirs.append([1.5, -2.5, 1.0])
     case["dir_points"] = dirs
     case["angles"] = [float(a) for a in rng.uniform(0, 2 * math.pi, size=6)]
+    case["path"] = ov.get("path") or _draw_path(rng, case)
     return case
+
+
+ATT_PARAMS = ("clamp_sigma", "clamp_to_zero", "step")
+BEAM_PARAMS = ("sigma", "divergence_x", "divergence_y", "length", "energy", "power", "temperature", "element")
+
+
+def _decoy(rng, case, prm):
+    """A valid value different from the final one (what the object holds before the final value arrives)."""
+    a, b = case["attenuator"], case["beam"]
+    if prm == "clamp_sigma":
+        while True:
+            dv = float(rng.uniform(0.5, 8))
+            if abs(dv - a["clamp_sigma"]) > 0.3:
+                return dv
+    if prm == "clamp_to_zero":
+        return not a["clamp_to_zero"]
+    if prm == "step":
+        return float(a["step"] * rng.uniform(2.0, 7.0))
+    if prm == "element":
+        return [e for e in BEAM_ELEMENTS if e != b["element"]][int(rng.integers(3))]
+    if prm in ("divergence_x", "divergence_y"):
+        return float(b[prm] + rng.uniform(0.7, 3.0))
+    if prm == "temperature":
+        return float(b[prm] + rng.uniform(1.0, 50.0))
+    return float(b[prm] * rng.uniform(1.6, 4.0))      # sigma, length, energy, power
+
+
+def _draw_path(rng, case):
+    """How the final configuration is reached before the first density evaluation.
+    canonical: attenuator parameters through the constructor, every Beam attribute set once.
+    one parameter (or all of them: '*') through the alternative route:
+      attenuator: 'setter-before-attach' (constructed with a decoy, attribute assigned, then attached to the beam) or
+                  'setter-after-attach' (attached with the decoy, attribute assigned afterwards);
+      beam      : 'decoy-first' (attribute assigned a decoy, then the final value) or 'early' (final value assigned
+                  right after Beam() and before atomic data / plasma / attenuator are attached)."""
+    u = rng.random()
+    if u < 0.35:
+        return {"param": None, "how": "canonical", "decoy": {}}
+    if u < 0.45:
+        prm = "*"
+        names = list(ATT_PARAMS) + list(BEAM_PARAMS)
+    elif u < 0.80:
+        # attenuator parameters; the clamp parameters only matter with clamping on
+        prm = ["clamp_sigma", "clamp_sigma", "step", "clamp_to_zero"][int(rng.integers(4))]
+        names = [prm]
+    else:
+        prm = BEAM_PARAMS[int(rng.integers(len(BEAM_PARAMS)))]
+        names = [prm]
+    how_att = ["setter-before-attach", "setter-after-attach"][int(rng.integers(2))]
+    how_beam = ["decoy-first", "early"][int(rng.integers(2))]
+    how = how_att if prm in ATT_PARAMS else (how_beam if prm != "*" else how_att + "+" + how_beam)
+    return {"param": prm, "how": how, "decoy": {n: _decoy(rng, case, n) for n in names}}
 
 
 def fixed_cases(tier):
@@ -784,18 +837,57 @@ def build_scene(case, log, counter):
     a = case["attenuator"]
     bel = getattr(atomic, b["element"])
     beam = Beam(parent=parent, transform=AffineMatrix3D(ops_matrix(case["beam_nodes"][-1])))
+    path = case.get("path") or {"param": None, "how": "canonical", "decoy": {}}
+    decoy = path["decoy"]
+    how = path["how"]
+    notes = []
+
+    def beam_value(name, v_):
+        return getattr(atomic, v_) if name == "element" else v_
+
+    order = ("energy", "power", "temperature", "element", "sigma", "divergence_x", "divergence_y", "length")
+    early = [n for n in order if n in decoy and "early" in how]
+    for n in early:                                   # final value before anything else is attached
+        setattr(beam, n, beam_value(n, b[n]))
     beam.atomic_data = provider
     beam.plasma = plasma
-    beam.attenuator = SingleRayAttenuator(step=a["step"], clamp_to_zero=a["clamp_to_zero"], clamp_sigma=a["clamp_sigma"])
-    beam.energy = b["energy"]
-    beam.power = b["power"]
-    beam.temperature = b["temperature"]
-    beam.element = bel
-    beam.sigma = b["sigma"]
-    beam.divergence_x = b["divergence_x"]
-    beam.divergence_y = b["divergence_y"]
-    beam.length = b["length"]
-    return world, plasma, beam, bel
+    # attenuator: constructor arguments are the decoys for the parameters routed through their setters
+    ctor = {k_: (decoy[k_] if k_ in decoy else a[k_]) for k_ in ATT_PARAMS}
+    att = SingleRayAttenuator(step=ctor["step"], clamp_to_zero=ctor["clamp_to_zero"], clamp_sigma=ctor["clamp_sigma"])
+    via_setter = [k_ for k_ in ATT_PARAMS if k_ in decoy]
+
+    def apply_setters(att_):
+        for k_ in via_setter:
+            try:
+                setattr(att_, k_, a[k_])
+            except AttributeError:
+                # attribute is constructor-only (no public setter): the only route is the constructor
+                notes.append("%s has no setter" % k_)
+                return False
+        return True
+    ok_set = True
+    if "setter-before-attach" in how:
+        ok_set = apply_setters(att)
+    if ok_set:
+        beam.attenuator = att
+        if "setter-after-attach" in how:
+            ok_set = apply_setters(att)
+    if not ok_set:
+        ctor.update({k_: a[k_] for k_ in ATT_PARAMS if ("%s has no setter" % k_) in notes})
+        att = SingleRayAttenuator(step=ctor["step"], clamp_to_zero=ctor["clamp_to_zero"], clamp_sigma=ctor["clamp_sigma"])
+        via_setter = [k_ for k_ in via_setter if ("%s has no setter" % k_) not in notes]
+        if "setter-before-attach" in how:
+            apply_setters(att)
+        beam.attenuator = att
+        if "setter-after-attach" in how:
+            apply_setters(att)
+    for n in order:
+        if n in early:
+            continue
+        if n in decoy and "decoy-first" in how:
+            setattr(beam, n, beam_value(n, decoy[n]))
+        setattr(beam, n, beam_value(n, b[n]))
+    return world, plasma, beam, bel, notes
 
 
 # ----------------------------------------------------------------------------------------------------------------
@@ -814,6 +906,26 @@ def _flags(case):
     return "+".join(f)
 
 
+class _KeyCtx:
+    """Forwards to the framework context, appending the configuration-route tag to every violation key."""
+
+    def __init__(self, ctx, sfx):
+        self._c = ctx
+        self._s = sfx
+
+    def __getattr__(self, name):
+        return getattr(self._c, name)
+
+    def check(self, ok, key, what, **kw):
+        return self._c.check(ok, key + self._s, what, **dict(kw, monitor=kw.get("monitor") or key.split(":")[0]))
+
+    def close(self, got, want, key, what, **kw):
+        return self._c.close(got, want, key + self._s, what, **dict(kw, monitor=kw.get("monitor") or key.split(":")[0]))
+
+    def viol(self, key, what, **kw):
+        return self._c.viol(key + self._s, what, **kw)
+
+
 def run_case(case, ctx):
     b = case["beam"]
     a = case["attenuator"]
@@ -829,7 +941,14 @@ def run_case(case, ctx):
 
     log = mock_c04.new_log()
     counter = [0]
-    world, plasma, beam, bel = build_scene(case, log, counter)
+    world, plasma, beam, bel, notes = build_scene(case, log, counter)
+    for n_ in notes:
+        ctx.skip("path: " + n_)
+    path = case.get("path") or {"param": None, "how": "canonical"}
+    ctx.cls("path:" + (("%s:%s" % (path["param"], path["how"])) if path["param"] else "canonical"))
+    if path["param"]:
+        # same oracles on every path; the key names the route so that a defect of one setter is attributed to it
+        ctx = _KeyCtx(ctx, "@%s:%s" % (path["param"], path["how"]))
     dens = beam.density if case["via"] == "beam" else beam.attenuator.density
 
     def sx(z):
@@ -1004,6 +1123,29 @@ def run_case(case, ctx):
                     ctx.check(val == 0.0, "zero:outside-clamp-radius",
                               "density is not exactly zero outside the clamp ellipse (x/sigma_x)^2+(y/sigma_y)^2 = clamp_sigma^2",
                               monitor="zero_clamp", x=x, y=y, z=float(z), got=val, clamp_sigma=cs, factor=fr)
+
+        # clamp radius located by bisection of the zero / non-zero transition along several azimuths
+        for z in (zs[0], zs[len(zs) // 2], zs[-1]):
+            z = float(z)
+            if not dens(0.0, 0.0, z) > 0.0:
+                ctx.skip("zero on-axis density: clamp radius not located")
+                continue
+            sgx, sgy = sx(z), sy(z)
+            for ang in case["angles"][:4]:
+                ca, sa = math.cos(ang), math.sin(ang)
+                lo, hi = 0.0, max(2.5 * cs, cs + 4.0)
+                if dens(sgx * hi * ca, sgy * hi * sa, z) != 0.0:
+                    ctx.viol("clamp:no-zero-region", "density is non-zero far outside the clamp ellipse with clamping on",
+                             z=z, r_over_sigma=hi, clamp_sigma=cs)
+                    continue
+                for _ in range(70):
+                    mid = 0.5 * (lo + hi)
+                    if dens(sgx * mid * ca, sgy * mid * sa, z) > 0.0:
+                        lo = mid
+                    else:
+                        hi = mid
+                ctx.close(0.5 * (lo + hi), cs, "clamp:radius", "the density vanishes at a normalised radius different from clamp_sigma",
+                          rtol=1e-10, monitor="clamp_radius", z=z, azimuth=ang, sigma_x=sgx, sigma_y=sgy)
 
     # ---------------- direction field ----------------
     for ux, uy, fz in case["dir_points"]:
